@@ -202,7 +202,7 @@ func (t *Thread) enabled() bool {
 		if t.m.W != 0 {
 			return false
 		}
-		// sync.RWMutex prefers writers: once a goroutine is inside Lock (here: parked at its Lock point), no new reader
+		// sync.RWMutex prefers writers: once a goroutine is inside Lock (here: waiting in the announced state, see WLock), no new reader
 		// is admitted until that writer has had its turn - which is what makes a second RLock by a goroutine that
 		// already holds one a deadlock as soon as a writer arrives in between. (The order "reader first, then the
 		// writer calls Lock" is the schedule in which the writer is still parked at its previous point.)
@@ -367,6 +367,22 @@ func (t *Thread) Lock(m *MState, tag string) {
 	t.x.schedule(t)
 	t.kind, t.m = KPlain, nil
 	m.W = int32(t.ID) + 1
+}
+
+// WLock is the write lock of a sync.RWMutex. A writer ANNOUNCES itself when it is inside Lock (new readers are then refused,
+// see enabled); being about to call Lock announces nothing. So the call is two steps: a plain point before the call, and -
+// only if the mutex cannot be taken at once - a wait in the announced state. (Treating the thread parked before the call as
+// announced, as an earlier version did, hid every schedule in which a reader slips in between another thread's RUnlock and
+// its Lock: the window of a read-lock-then-upgrade pattern, seed C19-8.)
+//
+//go:norace
+func (t *Thread) WLock(m *MState, tag string) {
+	t.Point(tag + ".enter")
+	if m.W == 0 && m.R == 0 {
+		m.W = int32(t.ID) + 1
+		return
+	}
+	t.Lock(m, tag)
 }
 
 //go:norace
